@@ -8,6 +8,9 @@ VARIABLES act,    \* label of the last action (hidden by VIEW)
 allvars == <<vars, act, hist>>
 
 IfaceArgs == 1..NI
+CurStP == [hasSpec |-> hasSpec', declared |-> declared',
+           inherit |-> inherit', cbases |-> cbases']
+
 
 Step ==
     \/ \E c \in Classes :
@@ -31,7 +34,7 @@ Step ==
     \/ \E o \in Objs, i \in IfaceArgs :
           /\ NoLongerProvides(o, i)
           /\ act' = [op |-> "noLongerProvides", o |-> o, ifs |-> <<i>>,
-                     raises |-> NoLongerRaises(o, i)']
+                     raises |-> i \in ProvidedO(CurStP, prov', o)]
     \/ \E c \in Classes, ifs \in ArgLists :
           /\ WithClassProv
           /\ ClassProvides(c, ifs)
@@ -73,19 +76,24 @@ Dump == PrintT(ToJson([hist |-> hist, obs |-> Obs]))
 Emit == PrintT(ToJson([lvl |-> TLCGet("level"), from |-> Key, act |-> act',
                        to |-> Key', obs |-> Obs']))
 
-\* C01, last sentence: declarations do not disturb unrelated objects
+\* C01, last sentence: declarations do not disturb unrelated objects.
+\* (Primed variables are passed explicitly: TLC evaluates a primed
+\* application of an operator with RECURSIVE body extremely slowly.)
+SameC(k) == ImplementedC(CurStP, k) = ImplementedC(CurSt, k)
+SameO(p) == ProvidedO(CurStP, prov', p) = ProvidedO(CurSt, prov, p)
 Unrelated ==
     [][/\ (act'.op \in {"classImplements", "classImplementsOnly",
                         "classImplementsFirst"}
-              => UnrelatedUnchangedC(act'.c))
+              => /\ \A k \in Classes \ AffectedByClass(act'.c) : SameC(k)
+                 /\ \A p \in Objs :
+                       ClassOf[p] \notin AffectedByClass(act'.c) => SameO(p))
        /\ (act'.op \in {"directlyProvides", "alsoProvides",
                         "noLongerProvides"}
-              => UnrelatedUnchangedO(act'.o))
+              => /\ \A k \in Classes : SameC(k)
+                 /\ \A p \in Objs \ {act'.o} : SameO(p))
        /\ (act'.op \in {"classProvides", "query", "superQuery"}
-              => /\ \A k \in Classes :
-                      ImplementedC(CurSt, k)' = ImplementedC(CurSt, k)
-                 /\ \A p \in Objs :
-                      ProvidedO(CurSt, prov, p)' = ProvidedO(CurSt, prov, p))]_allvars
+              => /\ \A k \in Classes : SameC(k)
+                 /\ \A p \in Objs : SameO(p))]_allvars
 
 \* interfaces: 1 IA, 2 IB(IA), 3 IC
 IB_3 == (0 :> <<>>) @@ (1 :> <<>>) @@ (2 :> <<1>>) @@ (3 :> <<>>)
